@@ -22,7 +22,8 @@
 (*     p_cman2   cacheMan.Set(index) inside that ManifestPut               *)
 (*     p_crl2    cacheRL.Set(subject, list); deferred Unlock; return       *)
 (*  scheme/reg/manifest.go:ManifestDelete (WithManifestCheckReferrers)     *)
-(*     d_get / d_get_rq   ManifestGet(artifact): cacheMan hit or GET       *)
+(*     d_get / d_get_rq   ManifestGet(artifact): cacheMan hit or GET; not  *)
+(*               at all when the caller passes the manifest (WithManifest) *)
 (*     d_unl     (deferred Unlock of referrerDelete) cacheMan.Delete(art.)  *)
 (*     d_delete_rq  DELETE manifests/<digest>                              *)
 (*     d_cman2   after a successful DELETE: cacheMan.Delete(artifact) again *)
@@ -257,7 +258,8 @@ PCRL2(p) ==
 \* --------------------------------------- reg: ManifestDelete + referrerDelete
 DGet(p) ==
   /\ pc[p] = "d_get"
-  /\ Goto(p, IF Cache /\ A(p) \in cacheArt THEN (IF LockDel /\ LockDelEarly THEN "d_lock" ELSE "d_crl") ELSE "d_get_rq") /\ Silent
+  /\ Goto(p, IF conf.dopt = "man" \/ (Cache /\ A(p) \in cacheArt)
+              THEN (IF LockDel /\ LockDelEarly THEN "d_lock" ELSE "d_crl") ELSE "d_get_rq") /\ Silent
   /\ UNCHANGED <<conf, srvMan, srvTag, srvIdx, feat, cacheRL, cacheArt, cacheIdx, mu, op, obj, lpc, lq, lacc, lcur, lconc, phase, left>>
 
 DGetRq(p) ==
